@@ -112,12 +112,17 @@ def stalled_listener_scenario(bins, idx, rng, mib=12):
         line = "filler line with some text to make it longer %s\n" % ("y" * 40)
         times = mib * 1024 * 1024 // (len(line) + 42)
         tail_text = "".join("app tail line %04d %s\n" % (i, "t" * 30) for i in range(400))
+        # causal, not timed: the filler announces when most of its output has been taken off its hands (more than the
+        # socket towards the stopped listener holds is still to come); only then does `app` write its tail and exit
         fx.add_cmd("filler", "build", [{"op": "out", "text": "filler starts\n"}, {"op": "out_repeat", "text": line, "times": times, "unique": True},
+                                       {"op": "touch", "path": "filler-most"},
+                                       {"op": "out_repeat", "text": line, "times": times // 2, "unique": True},
                                        {"op": "out", "stream": "stderr", "text": "filler done\n"}, {"op": "exit", "code": 0}], ext=".sh")
-        fx.add_cmd("app", "build", [{"op": "out", "text": "app first line\n"}, {"op": "touch", "path": "app-first"}, {"op": "sleep", "ms": 1500},
+        fx.add_cmd("app", "build", [{"op": "out", "text": "app first line\n"}, {"op": "touch", "path": "app-first"},
+                                    {"op": "wait", "paths": ["filler-most"], "timeout_ms": 60000}, {"op": "sleep", "ms": 800},
                                     {"op": "out", "text": tail_text}, {"op": "out", "stream": "stderr", "text": "app err\n"}, {"op": "exit", "code": 0}], ext=".sh")
         fx.add_cmd("late", "build", [{"op": "out", "text": "late\n"}, {"op": "exit", "code": 0}], ext=".sh")
-        written = {("filler", "stdout"): b"filler starts\n" + repeat_unique(line, times), ("filler", "stderr"): b"filler done\n",
+        written = {("filler", "stdout"): b"filler starts\n" + repeat_unique(line, times) + repeat_unique(line, times // 2), ("filler", "stderr"): b"filler done\n",
                    ("app", "stdout"): b"app first line\n" + tail_text.encode(), ("app", "stderr"): b"app err\n",
                    ("late", "stdout"): b"late\n", ("late", "stderr"): b""}
         fx.git_init()
@@ -129,7 +134,13 @@ def stalled_listener_scenario(bins, idx, rng, mib=12):
         while not os.path.exists(fx.marker("app-first")) and time.time() < deadline and p.poll() is None:
             time.sleep(0.01)
         os.killpg(lst.p.pid, signal.SIGSTOP)
-        time.sleep(6.0)
+        # the listener stays stopped until `app` has exited and then some seconds more (whatever patience a reader might
+        # have with a blocked stream runs out meanwhile)
+        app_ended = fx.marker("ended-%s" % fx.key_of("app", "build"))
+        deadline = time.time() + 90
+        while not os.path.exists(app_ended) and time.time() < deadline and p.poll() is None:
+            time.sleep(0.02)
+        time.sleep(4.0)
         lst.kill()
         try:
             so, se = p.communicate(timeout=200)
